@@ -1,6 +1,7 @@
 package vc
 
 import (
+	"strings"
 	"go/token"
 	"fmt"
 	"go/types"
@@ -172,6 +173,20 @@ func (fr *Frame) execRecv(st *State, x *ssa.UnOp) {
 	fr.setReg(x, v)
 }
 
+// isLocalTypeOf reports whether t is the named type tname declared inside the function called fname, and the
+// current function is that function or one of its closures.
+func (fr *Frame) isLocalTypeOf(t types.Type, fname, tname string) bool {
+	n, ok := t.(*types.Named)
+	if !ok || n.Obj().Name() != tname || n.Obj().Pkg() == nil || n.Obj().Parent() == n.Obj().Pkg().Scope() {
+		return false
+	}
+	f := fr.fn
+	for f.Parent() != nil {
+		f = f.Parent()
+	}
+	return f.Name() == fname
+}
+
 // chanInv applies the package's channel invariants for element type et to value v:
 // assumed (under cond) for a received value, a proof obligation for a sent one.
 func (fr *Frame) chanInv(st *State, et types.Type, v Val, cond Term, send bool, pos token.Pos) {
@@ -183,9 +198,13 @@ func (fr *Frame) chanInv(st *State, et types.Type, v Val, cond Term, send bool, 
 		if ci.PkgPath != pkg.Path() {
 			continue
 		}
-		t := fr.en.parseType(pkg, ci.Elem)
-		if t == nil || !types.Identical(t, et) {
-			continue
+		if i := strings.LastIndex(ci.Elem, "."); i > 0 && !strings.Contains(ci.Elem, "/") && !strings.HasPrefix(ci.Elem, "*") && fr.isLocalTypeOf(et, ci.Elem[:i], ci.Elem[i+1:]) {
+			// "<function>.<type>": a type declared inside that function (used by it and its closures)
+		} else {
+			t := fr.en.parseType(pkg, ci.Elem)
+			if t == nil || !types.Identical(t, et) {
+				continue
+			}
 		}
 		sc := &Scope{fr: fr, st: st, old: st, vars: map[string]Val{"v": v}, entry: map[string]Val{}, pkg: pkg}
 		g := fr.evalBool(sc, ci.E)
